@@ -37,6 +37,9 @@ def bxor : Int → Int → Int
 /-- value and (at most one) reported error identifier -/
 abbrev OpRes := Int × Option String
 
+/-- `is_shift_count_sane`: counts beyond `MAX_SHIFT` bits in either direction are reported -/
+def shiftSane (b : Int) : Bool := decide (-(Gen.maxShift : Int) ≤ b) && decide (b ≤ (Gen.maxShift : Int))
+
 /-- infix operators on two known integers -/
 def binop (fname : String) (a b : Int) : Option OpRes :=
   match fname with
@@ -45,9 +48,12 @@ def binop (fname : String) (a b : Int) : Option OpRes :=
   | "sub" => some (a - b, none)
   | "div" => some (if b = 0 then (0, some "arithmetic-error") else (Int.fdiv a b, none))
   | "mod" => some (if b = 0 then (0, some "arithmetic-error") else (Int.fmod a b, none))
-  | "lshift" => some (if b ≥ 0 then (a * 2 ^ b.toNat, none) else (a >>> (-b).toNat, some "arithmetic-error"))
-  | "rshift" => some (if b = 0 then (a, none) else if b > 0 then (a >>> b.toNat, none) else (a * 2 ^ (-b).toNat, some "arithmetic-error"))
-  | "lsh" => some (if b ≥ 0 then (a * 2 ^ b.toNat, none) else (a >>> (-b).toNat, none))
+  | "lshift" => some (if !shiftSane b then (0, some "arithmetic-error")
+      else if b ≥ 0 then (a * 2 ^ b.toNat, none) else (a >>> (-b).toNat, some "arithmetic-error"))
+  | "rshift" => some (if !shiftSane b then (0, some "arithmetic-error")
+      else if b = 0 then (a, none) else if b > 0 then (a >>> b.toNat, none) else (a * 2 ^ (-b).toNat, some "arithmetic-error"))
+  | "lsh" => some (if !shiftSane b then (0, some "arithmetic-error")
+      else if b ≥ 0 then (a * 2 ^ b.toNat, none) else (a >>> (-b).toNat, none))
   | "and_" => some (band a b, none)
   | "xor" => some (bxor a b, none)
   | "or_" => some (bor a b, none)
